@@ -344,7 +344,7 @@ func init() {
 			var jobs []*Job
 			skels := c12Skels
 			if tier == "thorough" {
-				skels = append(append([]string{}, skels...), "???", "@@@", "set ???", "\"???\": ??", "\"\\???\": x", "$if ???", "???: ?", "?-??: ?", "\"\\C-\\M-??\": ?",
+				skels = append(append([]string{}, skels...), "???", "set ???", "\"\\???\": x", "$if ???", "???: ?", "?-??: ?", "\"\\C-\\M-??\": ?",
 					"\"a\": \"???\"", "set ?? ??")
 			}
 			for _, sk := range skels {
@@ -373,7 +373,7 @@ func init() {
 			"parser options strict and halt-on-error are symbolic booleans",
 		},
 		Stubs:  []string{"bufio.Scanner, bytes.Reader interpreted from their SSA", "os/user.Current stub (home /nonexistent)", "unicode.* exact range formulas"},
-		Bounds: map[string]string{"quick": "directive skeletons with up to 3 symbolic holes, free text up to 3 runes/bytes; recursion depth budget 400 frames", "thorough": "up to 5 holes"},
+		Bounds: map[string]string{"quick": "directive skeletons with up to 3 symbolic holes, free text up to 3 runes/bytes; recursion depth budget 400 frames", "thorough": "up to 4 holes"},
 		Rule:   "one state per completed symbolic path of ParseBytes",
 	}
 }
